@@ -239,6 +239,21 @@ def benign_variants(model, modname, fn_line):
                 n.names = [ren.get(x, x) for x in n.names]
     if renamed:
         out.append((f"alpha-rename {renamed} occurrences of local variables (suffix _v)", ast.unparse(tree)))
+    # 5. swap the branches of every if/else with a negated condition
+    tree = copy.deepcopy(mod.tree)
+    swapped = 0
+    for n in ast.walk(tree):
+        if isinstance(n, ast.If) and n.orelse:
+            n.test = n.test.operand if isinstance(n.test, ast.UnaryOp) and isinstance(n.test.op, ast.Not) else ast.UnaryOp(op=ast.Not(), operand=n.test)
+            n.body, n.orelse = n.orelse, n.body
+            swapped += 1
+        elif isinstance(n, ast.IfExp):
+            n.test = n.test.operand if isinstance(n.test, ast.UnaryOp) and isinstance(n.test.op, ast.Not) else ast.UnaryOp(op=ast.Not(), operand=n.test)
+            n.body, n.orelse = n.orelse, n.body
+            swapped += 1
+    if swapped:
+        ast.fix_missing_locations(tree)
+        out.append((f"swap the branches of {swapped} if/else statements and conditional expressions (negated test)", ast.unparse(tree)))
     return out
 
 
